@@ -16,7 +16,7 @@ from drv_vec import Fails, attempt                        # noqa: E402
 
 TEXTS = {
     "blank": [""], "spaces": [" ", "   ", "\t"], "int": ["12", "-7", "0", "+3", "007"], "padint": [" 12 ", "  -4", "5  "],
-    "float": ["1.5", "-0.25", "1e3", ".5", "3."], "text": ["abc", "N/A", "été", "x y"], "quoted": ["a,b", 'say "hi"', "two\nlines", "semi;colon", "tab\there", "pipe|x", "win\r\nlines", "mac\rline", "x\r\n"],
+    "float": ["1.5", "-0.25", "1e3", ".5", "3."], "text": ["abc", "N/A", "été", "x y", "a\x0bb", "c\u2028d", "p\x85q", "f\x0cg", "s\x1ct", "u\u2029v", "r\x1ds"], "quoted": ["a,b", 'say "hi"', "two\nlines", "semi;colon", "tab\there", "pipe|x", "win\r\nlines", "mac\rline", "x\r\n"],
     "numlike": ["1_000", "0x10", "nan", "inf", "1e", "--1", "1,5", "١٢", "Infinity", "1e400"],
 }
 
@@ -119,6 +119,10 @@ def replay(cases_path, out_path):
                     hdr[1] = hdr[0]                      # repeated header cell, kept verbatim
                 if n % 7 == 0:
                     hdr[-1] = "Mixed Case ($)"
+                # header cells are names, kept verbatim whatever they look like: empty, blank, padded, numeric, odd characters
+                odd = ["", " ", " pad ", "12", "1.5", "None", "col_0", "a\u2028b", "x\x0cy", "0"]
+                if n % 3 == 1:
+                    hdr[(n // 3) % len(hdr)] = odd[(n // 9) % len(odd)]
                 texts.append(hdr)
             else:
                 texts.append([pick(cls, ri * 3 + ci) for ci, cls in enumerate(r)])
@@ -135,7 +139,7 @@ def record(seed, n, out_path):
     """random unicode grids; the expectation is built with the same rule (shape from the spec's ReadGrid)"""
     rnd = random.Random(seed)
     F, mon, ex = Fails(), Monitor(), 0
-    alphabet = "abc XYZ 0123456789 .,;-+eE_\"'\t|éß名😀 "
+    alphabet = "abc XYZ 0123456789 .,;-+eE_\"'\t|éß名😀 " + "\x0b\x0c\x1c\x85\u2028"
     for i in range(n):
         w = rnd.randint(1, 5)
         nrec = rnd.randint(0, 6)
@@ -157,8 +161,6 @@ def record(seed, n, out_path):
                 else:
                     row.append("".join(rnd.choice(alphabet) for _ in range(rnd.randint(1, 8))))
             recs.append(row)
-        if header and recs and any(x.strip() == "" for x in recs[0]):
-            recs[0] = ["H%d" % j for j in range(len(recs[0]))]
         if not recs:
             continue
         if not header and not recs[0]:
